@@ -742,6 +742,7 @@ func Run(c *ev.Ctx) int {
 	lane(c, "s", gw.Config{Versioning: true, Sidecar: true, NoOTmp: true}, 14, only)
 	// credentials that WERE valid: rotated / deleted / re-created accounts (history.go)
 	historyLane(c, "h", gw.Config{Versioning: true})
+	regionLane(c)
 	var names []string
 	for _, d := range defects() {
 		names = append(names, d.name)
